@@ -126,32 +126,42 @@ def _outcome(res: list[int]) -> str:
     return 'eof'
 
 
+REPRESENTATIVE_BITS = [0, 127] + [1 << i for i in range(7)] + [127 ^ (1 << i) for i in range(7)]   # every option alone on / alone off
+
+
 def corr_exhaustive(ck: Ck, escalate: bool) -> None:
-    n = 4 if ck.thorough else 3
-    per = 4 if n >= 4 else 8
-    groups = [ALL_BITS[i:i + per] for i in range(0, 128, per)]
     alpha = [ord(c) for c in SYN_ALPHA]
-    jobs = [[f'tok_shard_hash {U.coq_chars(g)} [] {U.coq_chars(alpha)} {n}'] for g in groups]
-    full_cuts = n if (ck.thorough or escalate) else 2
-    totals = U.pool_map(_impl_shard, [(g, n, full_cuts) for g in groups], workers=14)
-    ck.extra['_oracle_from_corr'] = [(t[3], t[4]) for t in totals]
-    ck.extra['_oracle_scope'] = (n, full_cuts)
-    res = U.coq_eval_many(ck, jobs, 'c03exh', timeout=840, workers=14)
+    # phase A (both tiers): length <= 3 x all 128 option vectors.  phase B (thorough): length <= 4 x 16 representative vectors.
+    full_cuts = 3 if (ck.thorough or escalate) else 2
+    phases = [(3, [ALL_BITS[i:i + 8] for i in range(0, 128, 8)], full_cuts)]
+    if ck.thorough:
+        phases.append((4, [[b] for b in REPRESENTATIVE_BITS], 2))
     bad = []
-    for g, r, (tot, cnt, hist, _oc, _ob) in zip(groups, res, totals):
-        ck.count('corr_exhaustive_cases', cnt)
-        for k, v in hist.items():
-            ck.hist('corr_exhaustive_outcome', k, v)
-        if r is None or U.parse_int63(r[0]) != tot:
-            bad.append(g)
+    ncases = 0
+    oracle_parts = []
+    for n, groups, fc in phases:
+        jobs = [[f'tok_shard_hash {U.coq_chars(g)} [] {U.coq_chars(alpha)} {n}'] for g in groups]
+        totals = U.pool_map(_impl_shard, [(g, n, fc) for g in groups], workers=14)
+        oracle_parts += [(t[3], t[4]) for t in totals]
+        res = U.coq_eval_many(ck, jobs, f'c03exh{n}', timeout=840, workers=14)
+        for g, r, (tot, cnt, hist, _oc, _ob) in zip(groups, res, totals):
+            ck.count('corr_exhaustive_cases', cnt)
+            ncases += cnt
+            for k, v in hist.items():
+                ck.hist('corr_exhaustive_outcome', k, v)
+            if r is None or U.parse_int63(r[0]) != tot:
+                bad.append(g)
+    ck.extra['_oracle_from_corr'] = oracle_parts
+    ck.extra['_oracle_scope'] = (3, full_cuts)
     detail = ''
     if bad:
         detail = _locate(ck, bad[0], alpha)
         ck.tie_broken.append('correspondence Tokenizer vs Text/Tokenizer.v (exhaustive small scope)')
+    scope = f'all strings over the {len(SYN_ALPHA)}-symbol syntax alphabet up to length 3 x all 128 option vectors' + \
+            (' and up to length 4 x 16 representative option vectors' if ck.thorough else '')
     ck.obligation('correspondence:tokenizer_exhaustive', not bad,
-                  f'real Tokenizer vs model: all strings over the {len(SYN_ALPHA)}-symbol syntax alphabet up to length {n} x all 128 option vectors '
-                  f'({sum(t[1] for t in totals)} cases; token kind, value, line_num, _last_was_cr, error site/argument/line; len+2 calls): '
-                  + ('agree' if not bad else f'{len(bad)} option groups disagree; {detail}'))
+                  f'real Tokenizer vs model: {scope} ({ncases} cases; token kind, value, line_num, _last_was_cr, error '
+                  f'site/argument/line; len+2 calls): ' + ('agree' if not bad else f'{len(bad)} option groups disagree; {detail}'))
 
 
 def _locate(ck: Ck, bitsl: list[int], alpha: list[int]) -> str:
@@ -275,6 +285,9 @@ def _impl_chk_trace(bits: int, whole: bool, cs: list[str]) -> list[int]:
             i, args = U.err_code(e.mess)
             out += [2, i, e.line_num, len(args), *args, tk._char_index + 1, len(tk._cur_chunk)]
             break
+        except Exception as e:  # noqa: BLE001 - never matches the model
+            out += [4, 0, *map(ord, type(e).__name__)]
+            break
         out += [1, t.value, tk.line_num, int(tk._last_was_cr), len(v), *map(ord, v), tk._char_index + 1, len(tk._cur_chunk)]
     return out
 
@@ -322,6 +335,8 @@ def eof_oracle(s: str, bits: int) -> str | None:
                 return 'EOF-not-for-ever'
     except TokenSyntaxError:
         return None
+    except Exception:  # noqa: BLE001
+        return 'foreign-exception'
     return None
 
 
@@ -354,6 +369,8 @@ def reads_oracle(s: str, bits: int, cs: list[str] | None) -> str | None:
                 break
     except TokenSyntaxError:
         pass
+    except Exception:  # noqa: BLE001
+        return 'foreign-exception'
     if tk.reads > 2 * len(s) + calls:
         return f'reads {tk.reads} > 2*{len(s)}+{calls}'
     return None
@@ -397,7 +414,20 @@ def _minimal_bits(bits: int, pred) -> int:
     return bits
 
 
+_REPORTED: dict[str, int] = {}
+CAP = 3
+
+
+def capped(kind: str) -> bool:
+    """At most CAP shrunk reports per kind of failure (each report is shrunk, which is expensive)."""
+    _REPORTED[kind] = _REPORTED.get(kind, 0) + 1
+    return _REPORTED[kind] > CAP
+
+
 def report_tok(ck: Ck, kind: str, s: str, bits: int, cs: list[str] | None) -> None:
+    if capped(kind):
+        ck.count('further_failures_not_shrunk:' + kind)
+        return
     def fails(t: str, b: int) -> bool:
         if kind == 'chunk-dependence':
             return any(chunk_oracle(t, b, c) == kind for c in list(chunkings(t))[1:] + [with_empties([t])]) if len(t) <= 12 else \
@@ -430,7 +460,7 @@ def search(ck: Ck, escalate: bool) -> None:
     # The runs are shared with the correspondence (same reference traces); if that stage did not run, do them here.
     res = ck.extra.pop('_oracle_from_corr', None)
     scope = ck.extra.pop('_oracle_scope', None)
-    if res is None or (big and scope != (3, 3) and scope != (4, 4)):
+    if res is None or (big and scope != (3, 3)):
         groups = [ALL_BITS[i:i + 8] for i in range(0, 128, 8)]
         scope = (3, 3 if big else 2)
         res = [(t[3], t[4]) for t in U.pool_map(_impl_shard, [(g, scope[0], scope[1]) for g in groups], workers=14)]
@@ -462,7 +492,7 @@ def search(ck: Ck, escalate: bool) -> None:
             ck.count('oracle_read_bound')
             r = reads_oracle(s, bits, random_chunks(rng, s))
             if r:
-                report_tok(ck, 'reads-superlinear', s, bits, None)
+                report_tok(ck, r if r == 'foreign-exception' else 'reads-superlinear', s, bits, None)
         ck.seen(('or', bits, s))
         ck.hist('oracle_random_len', len(s) // 10 * 10)
     # (c) Keyvalues.parse: only KeyValError, same outcome for every chunking
@@ -477,6 +507,8 @@ def search(ck: Ck, escalate: bool) -> None:
         ref = kv_oracle(s, None, **kw)
         ck.hist('kvparse_outcome', ref[0])
         if ref[0] == 'FOREIGN':
+            if capped('kvparse-foreign:' + ref[1]):
+                continue
             small = shrink(s, lambda t: kv_oracle(t, None, **kw)[:2] == ref[:2])
             ck.violation(f'kvparse-foreign-exception:{ref[1]}:' + '+'.join(cname(c) for c in small[:8]),
                          f'Keyvalues.parse({small!r}, {kw}) raised {ref[1]}: {kv_oracle(small, None, **kw)[2]} (only KeyValError may escape)',
@@ -485,6 +517,8 @@ def search(ck: Ck, escalate: bool) -> None:
         for cs in ([c for c in s], s.splitlines(keepends=True), random_chunks(rng, s)):
             got = kv_oracle(s, cs, **kw)
             if got != ref:
+                if capped('kvparse-chunks'):
+                    break
                 small = shrink(s, lambda t: kv_oracle(t, None, **kw) != kv_oracle(t, [c for c in t], **kw))
                 ck.violation('kvparse-chunk-dependence:' + '+'.join(cname(c) for c in small[:8]),
                              f'Keyvalues.parse({small!r}, {kw}) differs between one string and per-character chunks',
@@ -495,6 +529,7 @@ def search(ck: Ck, escalate: bool) -> None:
 
 # ------------------------------------------------------------------------------------------------ main
 def run(ck: Ck) -> None:
+    _REPORTED.clear()
     ck.rule = ('exhaustive: every string over the 23-symbol syntax alphabet (" \\ / * { } [ ] ( ) # : + = , CR LF space a n BOM \' ;) up to '
                'length 3 (4 thorough for the correspondence) x all 128 option vectors; oracle additionally x every way of cutting the '
                'string into chunks, with empty chunks inserted, and split into lines; non-trivial = length >= 1 (every such string '
